@@ -789,7 +789,7 @@ def compare_vcs(ctx, out, pending):
         x = sexp.loads(line)
         if x[4] != ["T", "T", "T", "T"]:
             # the decidable hypotheses of sem_adequate_ws / print_parse_* must cover what is generated and what compute_wp builds
-            ctx.broken("hypotheses:c20:wf", "wsCom / wfC pre / wfC post / wfC of all VCs = %s on %s" % (x[4], rec["key"]))
+            ctx.broken("hypotheses:c20:wf", "wsCom / wfC pre / wfC post / wfC and namesOK of all VCs = %s on %s" % (x[4], rec["key"]))
         ctx.count("wf-hypotheses-checked")
         m_vcs = sorted(repr(hol_norm(u_expr(v))) for v in x[2])
         m_strs = sorted(sexp.dec(t) for t in x[3])
@@ -1184,6 +1184,15 @@ def com_pp_stage(ctx, impl):
         ctx.count("compp:%s" % ("identical" if same else "different-tree"))
         if not same:
             check_com_roundtrip(ctx, impl, c)
+    # hypotheses and statement of lex_print_com on every generated program
+    outl = ctx.lean_driver(EXE, [sexp.dumps(["lexcom", s_com(c)]) for c in coms])
+    if outl is None or len(outl) != len(coms):
+        ctx.broken("correspondence:c20:driver", "model driver unavailable (lexcom)")
+    else:
+        bad = [c for c, l in zip(coms, outl) if sexp.loads(l) != ["T", "T"]]
+        ctx.count("lexOKc c and lex(ppCom c) == comToks c", len(coms) - len(bad))
+        if bad:
+            ctx.broken("hypotheses:c20:lexcom", "lexOKc / lex(ppCom c) = comToks c fails on %s" % sexp.dumps(s_com(bad[0])))
     base = 2 * len(coms)
     for j, s in enumerate(extra):
         r_p, m_p = parse_real(impl, s, com=True), model_parse_result(out[base + j], com=True)
@@ -2223,33 +2232,41 @@ def replay(ctx, rp):
 
 
 MANIFEST = {
-    "text": "PROVED in Lean (about the executable model lean/Holpy/C20/Model.lean, every program / assertion / state, no bound): vcs_sound -- if "
-            "every condition in the list get_vcs returns is valid, every terminating execution from a state satisfying the precondition ends in the "
-            "postcondition; vcg_sound -- the same for the assumptions of the theorem imp.vcg/vcg_norm returns; exec_deterministic; interp_sound, "
-            "interp_complete (fuel interpreter = big-step semantics Exec); print_parse_tokens, print_parse_id, print_parse_sem_partial -- the printer "
-            "(token sequence of Op.__str__) followed by parser2's grammar (as LALR(1) with shift preference reads it) returns the same condition for "
-            "every wfC condition; parse_produces_wfC, reparse_of_parsed -- every condition the grammar returns is wfC, so that hypothesis covers all "
-            "user input; typed_total, sem_adequate, sem_adequate_ws -- the Sem predicate of library/hoare.json (re-translated each run) coincides with "
-            "Exec on programs satisfying the decidable check wsCom; hoare_rules_valid -- Sem_Skip, Sem_Assign and the six Hoare rules imp.vcg "
-            "applies hold for that Sem (three of them carry no proof in the library); sem_rules_pinned. "
-            "COMPARED per run, model against code, on generated inputs (observable results only): the list of VC strings and of VC HOL terms "
-            "get_lines/get_vcs return (as multisets), the assumptions of imp.vcg_norm's theorem on triples built as HOL terms (as a multiset), "
-            "Op.__str__, print_com, cond_parser / com_parser results (valid and token-perturbed strings), lex(pp e) = toks e, expression values, "
-            "interpreter results, eval_Sem final states; the decidable hypotheses wfC / wsCom are evaluated by the driver on every generated "
-            "condition, every VC, every cond_parser result and every generated program. "
+    "text": "PROVED in Lean (about the executable model lean/Holpy/C20/Model.lean; every program / assertion / state, no bound). "
+            "VC generation: vcs_sound (all conditions of get_vcs valid ==> every terminating execution from the precondition ends in the "
+            "postcondition), vcg_sound (same for the assumptions of imp.vcg/vcg_norm's theorem), norm_vc_equiv + vcs_equiv_vcsH (the only "
+            "simplification, dropping a hypothesis that is literally true, preserves the meaning in every state, so both generators' condition "
+            "lists are equi-valid), norm_subst_equiv (evaluating the function update of assign_rule = substitution), vcs_partial_only (PARTIAL "
+            "correctness only: all conditions can be valid for a program that never terminates -- neither the code nor the theorems claim "
+            "termination). Semantics: exec_deterministic, interp_sound, interp_complete, typed_total, sem_adequate, sem_adequate_ws (the Sem "
+            "predicate of library/hoare.json, re-translated each run, coincides with Exec on programs passing the decidable check wsCom; states "
+            "are functions with point updates, as in imp.py), hoare_rules_valid, sem_rules_pinned. Printing and reading back, on STRINGS: lex_print, "
+            "lex_print_arith, lex_print_com (Lark's standard lexer -- white space skipped, CNAME/INT longest match, keyword retyping, longest "
+            "literal -- reads the printed condition / expression / program back as exactly the printer's tokens, for names that are identifiers "
+            "and not keywords: nameOK), print_parse_tokens, print_parse_id, print_parse_string, print_parse_sem (str(e) parsed by parser2's lexer and "
+            "grammar, as LALR(1) with shift preference reads it, is e again up to the reading of negative constants, hence has the same value in "
+            "every state; for every wfC condition), parse_produces_wfC, reparse_of_parsed (every condition the grammar returns is wfC). "
+            "NOT proved: a parse-back theorem for programs (Seq(Cond(..),c) has no concrete syntax: known finding); anything about arrays, fields, "
+            "forall (convert_hol does not exist for them and get_vcs raises: out of scope); termination. "
+            "COMPARED per run, model against code, observable results only: VC strings and VC HOL terms of get_lines/get_vcs (multisets), "
+            "assumptions of imp.vcg_norm's theorem on triples built as HOL terms (multiset), Op.__str__, print_com text, cond_parser / com_parser "
+            "results (valid and token-perturbed strings), token lists of the model lexer and of Lark's lexer on every printed string and on "
+            "character-perturbed strings, expression values, interpreter results, eval_Sem final states; the decidable hypotheses wfC, namesOK, "
+            "nameOK, wsCom, lexOKc are evaluated by the driver on every generated condition, VC, name, program and cond_parser result. "
             "JUDGED on the implementation's own outputs by the harness' reference evaluator / interpreter on concrete states: (a) VC HOL terms all "
             "true on -3..3 and on every visited state ==> executions from every grid state satisfying the precondition end in the postcondition "
-            "(get_vcs) -- likewise on 0..3 for imp.vcg_norm's conditions; (b) each shown VC string, re-parsed by the real parser, has the value of "
-            "its HOL term; generated conditions printed, re-parsed, and converted by convert_hol keep their value; expr.neg/conj/implies/... return "
-            "conditions with the value of the logical combination; (c) eval_Sem's theorem (names of any length, name -> cell mapping observed and "
-            "required injective) and vcg_solve-proved triples against execution of the program text.",
-    "note": "Trusted: Lean kernel, propext/Quot.sound; the harness (generators, reference evaluator/interpreter, reader of HOL terms incl. function "
-            "updates, hoare.json translator, builder of HOL triples) -- exceptions inside harness code are machinery errors (exit 2) or `broken`, "
-            "never verdicts; Lark's LALR tables and contextual lexer (the grammar model is tied by differential parsing); the holpy kernel and Z3 "
-            "for the theorems eval_Sem / vcg_solve return. Partial: the round trip is proved on tokens; lex(pp e) = toks e is compared, not proved. "
-            "Not modelled: arrays / fields / forall (convert_hol does not exist for them, get_vcs raises), functions of arity > 2, identifiers that "
-            "are keywords, >=, >, <-->, false in the printed language (no concrete syntax; never produced by compute_wp). Known finding: print_com "
-            "cannot express a sequence whose first part ends in a conditional.",
+            "(get_vcs; likewise 0..3 for imp.vcg_norm); (b) each shown VC string re-parsed by the real parser has the value of its HOL term; "
+            "generated conditions printed, re-parsed and converted by convert_hol keep their value; expr.neg/conj/implies/... return conditions "
+            "with the value of the logical combination; (c) eval_Sem's theorem (names of any length, name -> cell mapping observed and required "
+            "injective) and vcg_solve-proved triples against execution of the program text.",
+    "note": "Trusted: Lean kernel, propext / Classical.choice / Quot.sound; the harness (generators, reference evaluator/interpreter, reader of HOL "
+            "terms incl. function updates, hoare.json translator, builder of HOL triples) -- exceptions inside harness code are machinery errors "
+            "(exit 2) or `broken`, never verdicts; Lark's LALR tables (the grammar model is tied by differential parsing) and Lark's lexer "
+            "construction (the lexer model is tied by differential lexing; the contextual restriction of terminals per parser state is not "
+            "modelled, it only matters for keywords used as identifiers, which nameOK excludes); the holpy kernel and Z3 for the theorems "
+            "eval_Sem / vcg_solve return. Not modelled: arrays / fields / forall, functions of arity > 2, >=, >, <-->, false in the printed "
+            "language (no concrete syntax in parser2; never produced by compute_wp). Known finding: print_com cannot express a sequence whose "
+            "first part ends in a conditional.",
     "design_ref": "DESIGN.md 8.11",
 }
 FINDINGS = [
